@@ -24,7 +24,14 @@ import (
 	"time"
 )
 
-const VerifDir = "/verif"
+// VerifDir is the verification tree the check runs in (VERIF_DIR overrides it so that a snapshot copy can run
+// side by side with edits; registered commands always use /verif).
+var VerifDir = func() string {
+	if d := os.Getenv("VERIF_DIR"); d != "" {
+		return d
+	}
+	return "/verif"
+}()
 
 // Config is given by each harness.
 type Config struct {
